@@ -185,6 +185,19 @@ theorem covers_specWrites (ops : List AOp) (obsW : MS) :
         ∃ r ∈ specWrites ops, r.id = id ∧ r.mask.testBit lane = true :=
   covers_ofRegs _ _
 
+/-! ### The two outcome acceptors of the driver (`accept-exec`, `accept-build`) -/
+
+/-- `accept-exec` answers `ok` exactly for the outcome `executed`. -/
+theorem executes_sound (o : String) : executes o = true ↔ o = "executed" := by
+  unfold executes; exact beq_iff_eq
+
+/-- `accept-build` answers `ok` exactly for the outcome `built`. -/
+theorem builds_sound (o : String) : builds o = true ↔ o = "built" := by
+  unfold builds; exact beq_iff_eq
+
+example : executes "SIGILL" = false := by decide
+example : builds "panic_in_build" = false := by decide
+
 /-! ### Non-vacuity and witnesses (concrete, evaluated by the kernel) -/
 
 /-- `ADDQ CX, AX` as measured: reads RAX and RCX, writes RAX: covered. -/
